@@ -88,6 +88,60 @@ static int post_fork_script(struct scen *s, const char *role)
 		synchronize_rcu();
 		bump();
 	}
+	if (is_child && s->npend > 0 && vp_rand_n(&s->rng, 2) == 0) {
+		/* Passive phase: the callbacks that were pending at fork() must run in the child WITHOUT any further
+		 * call_rcu() / rcu_barrier() by the child (either would wake the helper and repair a lost wake-up).
+		 * Stuck = nothing invoked for 8 s, every helper with callbacks queued has futex == -1, and no
+		 * thread of this process other than this one is running or in uninterruptible sleep, at 3 samples. */
+		PH("passive-wait-for-pending");
+		uint64_t t_last = vp_now_ns();
+		unsigned long done_last = 0;
+		int confirm = 0;
+		for (;;) {
+			unsigned long done = 0, need = 0;
+			for (int i = 0; i < s->nrecs; i++)
+				if (s->recs[i].queued && s->recs[i].pend && !s->recs[i].gen) {
+					need++;
+					done += __atomic_load_n(&s->recs[i].invoked, __ATOMIC_RELAXED) != 0;
+				}
+			if (done >= need)
+				break;
+			uint64_t now = vp_now_ns();
+			if (done != done_last) {
+				done_last = done;
+				t_last = now;
+				confirm = 0;
+				bump();
+			} else if (now - t_last > (uint64_t) (8 + 2 * confirm) * 1000000000ULL) {
+				struct vp_crdp_info info[48];
+				int n = VP_PEEK(crdp_snapshot)(info, 48), queued_asleep = 0, queued_other = 0;
+				unsigned long ql = 0;
+				for (int i = 0; i < n && i < 48; i++)
+					if (info[i].qlen > 0) {
+						if (info[i].futex == -1) queued_asleep++; else queued_other++;
+						ql += info[i].qlen;
+					}
+				int busy = count_tasks_state(getpid(), 'R') - 1 + count_tasks_state(getpid(), 'D');
+				if (queued_asleep > 0 && !queued_other && busy <= 0)
+					confirm++;
+				else {
+					confirm = 0;
+					if (now - t_last > 90000000000ULL) {
+						R_inconcl("child: pending callbacks not run after 90 s of passive waiting, stuck state not confirmed");
+						break;
+					}
+				}
+				if (confirm >= 3) {
+					R_viol("c16:child:pending-callbacks-never-run-without-further-call_rcu",
+					       "%s child: %lu of %lu callbacks that were pending at fork() have not run %llu s after call_rcu_after_fork_child(), the child made no call_rcu()/rcu_barrier() call meanwhile; %d helper(s) hold %lu queued callbacks with futex == -1 and every thread of the process is asleep",
+					       s->cfg, need - done, need, (unsigned long long) ((now - t_last) / 1000000000ULL), queued_asleep, ql);
+					return -1;
+				}
+			}
+			nap(2000);	/* qsbr: offline while sleeping, so that the helpers' grace periods can end */
+		}
+		R_count("child_passive_waits_for_pending_callbacks", 1);
+	}
 	PH("call_rcu");
 	int knew = 1 + (int) vp_rand_n(&s->rng, 24);
 	struct cbrec *nr = new_recs(s, &knew, 0);
